@@ -1,13 +1,160 @@
-import YouVerif.C07.Model
+/-
+C07 — native tokens are conserved: property theorems over the ledger model `YouVerif.C07.Model`.
+
+`total` = balances + staked tokens + validators' undistributed rewards + role pools + global residue + unfinished
+withdrawals + tokens detained by pending transactions + fees in flight (header.GasRewards) + burnt.
+-/
+import YouVerif.C07.Proofs
 namespace YouVerif.C07
 
-/-- placeholder first theorem (replaced below as proofs land): crediting an account changes `sumI` by the amount -/
-theorem sumI_addI (m : List (Addr × Int)) (a : Addr) (x : Int) : sumI (addI m a x) = sumI m + x := by
-  induction m with
-  | nil => simp [addI, sumI]
-  | cons h t ih =>
-    obtain ⟨k, v⟩ := h
-    unfold addI
-    split <;> simp [sumI, ih] <;> omega
+/-! ## transactions -/
+
+/-- every offered transaction (valid or refused; transfer, staking message, observed contract call) changes `total` by
+exactly the refunded gas that was nevertheless credited to GasRewards; in particular nothing for a refused one -/
+theorem tx_total (p : Params) (s : St) (t : Tx) :
+    total (applyTx p s t).1 = total s + (if (applyTx p s t).2 = .skipped then 0 else (mintedGas t : Int) * (t.price : Int)) :=
+  applyTx_total p s t
+
+/-- transfers, all nine staking messages (successful or failed) and contract calls without a gas refund conserve -/
+theorem tx_conserves (p : Params) (s : St) (t : Tx) (h : mintedGas t = 0) : total (applyTx p s t).1 = total s := by
+  rw [applyTx_total, h]; split <;> simp
+
+example : mintedGas { sender := 1, nonce := 0, gasLimit := 21000, price := 3, intrinsic := 21000, body := .transfer 2 5 } = 0 := rfl
+
+/-- a pending handler that accepts the message only moves its payload value from the sender into "pending" -/
+theorem pending_handler_conserves (p : Params) (s s' : St) (t : PTx) (h : handle p s t = some s') : total s' = total s :=
+  handle_conserves p s s' t h
+
+/-- fees paid = rewards credited: for a message body without EVM refund the gas the sender pays for is the gas GasRewards gets -/
+theorem fees_eq_rewards {p : Params} {s s2 : St} {t : Tx} {c r : Nat} {f : Bool}
+    (h : execBody p s t = some (s2, c, r, f)) (hm : mintedGas t = 0) : c = r := by
+  have := (execBody_total h).2
+  rw [hm] at this
+  omega
+
+/-- F-C07c (DEFECT, proved on the model, reproduced on the real code): a contract call whose refund counter is non-zero
+mints `refund * gasPrice` -/
+def w07c : St := { bal := [(7, 1000000000)], gasPool := 30000000 }
+def t07c : Tx := { sender := 7, nonce := 0, gasLimit := 100000, price := 7, intrinsic := 21000, body := .evm 8 0 false 26136 13068 0 [] }
+theorem tx_conserves_counterexample : total (applyTx {} w07c t07c).1 = total w07c + 13068 * 7 := by decide
+
+/-! ## end of block -/
+
+/-- subsidies come out of the rewards pool account and fees + residue + subsidy are fully credited (proposer, house pool,
+new residue): rewardsToPool conserves -/
+theorem subsidy_from_pool (p : Params) (s : St) (cb : Addr) (hf : 0 ≤ s.fees) (hr : 0 ≤ s.residue)
+    (hok : (rewardsToPool p s cb).2 = .ok) : total (rewardsToPool p s cb).1 = total s :=
+  rewardsToPool_total p s cb hf hr hok
+
+/-- rewards distributed to a validator are not lost by a settlement that is handed the stored validator object:
+commission + per-stake shares + residue add up (or the code stops with logging.Crit = `crash`) -/
+theorem settle_conserves (s : St) (v : Val) (h : getVal s.vals v.addr = some v) (hok : (settle s v).2 = .ok) :
+    total (settle s v).1 = total s :=
+  settle_total s v h hok
+
+/-- the whole end-block hook of a block that is not a period end conserves and re-establishes the invariant -/
+theorem endBlock_conserves_within_period (p : Params) (s : St) (cb : Addr) (order : List (Addr × Addr)) (hI : Inv s)
+    (hn : (s.number + 1) % p.freq ≠ 0) (hok : (endBlock p s cb order).2 = .ok) :
+    total (endBlock p s cb order).1 = total s ∧ Inv (endBlock p s cb order).1 :=
+  endBlock_within_period p s cb order hI hn hok
+
+/-! ## chains -/
+
+/-- side conditions of the partial chain theorem, evaluated along the run: no EVM gas refund, and end-block hooks only
+at blocks that are not period ends -/
+def Quiet (p : Params) : St → List Op → Prop
+  | _, [] => True
+  | s, o :: t =>
+    (match o with
+     | .tx tx => mintedGas tx = 0
+     | .endBlock _ _ => (s.number + 1) % p.freq ≠ 0
+     | .beginBlock _ _ => True) ∧ Quiet p (step p s o).1 t
+
+theorem step_conserves_partial (p : Params) (s : St) (o : Op) (hI : Inv s) (hq : Quiet p s [o]) (hok : (step p s o).2 = .ok) :
+    total (step p s o).1 = total s ∧ Inv (step p s o).1 := by
+  cases o with
+  | beginBlock n g => exact ⟨rfl, hI⟩
+  | tx t =>
+    obtain ⟨hv, hr, hf⟩ := applyTx_frame p s t
+    refine ⟨tx_conserves p s t hq.1, ?_⟩
+    simp only [step]
+    exact ⟨by have := hI.1; omega, by rw [hr]; exact hI.2.1, by rw [hv]; exact hI.2.2⟩
+  | endBlock cb order => exact endBlock_within_period p s cb order hI hq.1 hok
+
+/-- chain_conserves, partial: for every history of blocks (any valid or invalid transactions of every kind without EVM
+refunds, block rewards and subsidies) that stays inside staking periods, `total` at the end equals `total` at the start -/
+theorem chain_conserves_partial (p : Params) (ops : List Op) (s : St) (hI : Inv s) (hq : Quiet p s ops)
+    (hok : (run p s ops).2 = .ok) : total (run p s ops).1 = total s := by
+  induction ops generalizing s with
+  | nil => rfl
+  | cons o t ih =>
+    unfold run at hok ⊢
+    have hq1 : Quiet p s [o] := ⟨hq.1, trivial⟩
+    generalize hst : step p s o = r at *
+    obtain ⟨s', out⟩ := r
+    cases out with
+    | crash => simp at hok
+    | ok =>
+      simp only at *
+      have := step_conserves_partial p s o hI hq1 (by rw [hst])
+      rw [hst] at this
+      have hq2 : Quiet p s' t := by have := hq.2; rw [hst] at this; exact this
+      rw [ih s' this.2 hq2 hok, this.1]
+
+/-- non-vacuity: an initial state with a genesis validator satisfies the invariant, and a block with a transfer is Quiet -/
+def mkVal (a : Addr) (role status : Nat) (tokenYou : Int) (rewards : Int) : Val :=
+  { addr := a, operator := a + 100, coinbase := a + 200, role := role, status := status, token := tokenYou * 1000000000000000000, stake := tokenYou,
+    selfToken := tokenYou * 1000000000000000000, selfStake := tokenYou, rewards := rewards, lastSettled := 0, commission := 0, risk := 0, accept := 0,
+    expelled := false, expelExpired := 0, lastInactive := 0, lastActive := 143, delegs := [] }
+def g0 : St := { bal := [(10, 5000000)], vals := [mkVal 5 1 1 2000 0], number := 0 }
+example : Inv g0 := ⟨by decide, by decide, by decide⟩
+def ops0 : List Op := [.beginBlock 1 30000000, .tx { sender := 10, nonce := 0, gasLimit := 21000, price := 2, intrinsic := 21000, body := .transfer 11 7 }, .endBlock 5 []]
+example : Quiet {} g0 ops0 := ⟨trivial, rfl, by decide, trivial⟩
+example : (run {} g0 ops0).2 = .ok := by decide
+example : total (run {} g0 ops0).1 = total g0 := by decide
+example : (run {} g0 ops0).1.fees = 0 ∧ balOf (run {} g0 ops0).1 11 = 7 := by decide
+
+/-! ## period ends: the full statement, its known failures, and what is proved of it -/
+
+/-- The full property on the model: every non-crashing step conserves (all inputs, including period ends). -/
+def step_conserves_statement : Prop :=
+  ∀ (p : Params) (s : St) (o : Op), Inv s → (step p s o).2 = .ok → total (step p s o).1 = total s
+
+/-- F-C07a witness: block 143 (period end; 0 + 8·16 ≤ 143), an online house validator holding 500 LU of unsettled
+rewards and never settled, 9000 LU in the house pool. -/
+def w07a : St := { vals := [mkVal 5 1 1 2000 0, mkVal 6 3 1 100 500], pool3 := 9000, number := 143 }
+/-- F-C07d witness: block 15 (period end), an online house validator with 250 LU of unsettled rewards (below its stake,
+so settlement keeps them as residue) whose full withdrawal takes effect. -/
+def w07d : St := { vals := [mkVal 5 1 1 2000 0, mkVal 6 3 1 100 250], number := 15,
+                   recs := [{ d := 0, v := 6, final := 0, txs := [{ kind := 4, sender := 106, val := 6, value := 100000000000000000000, aux := 9 }] }] }
+
+/-- F-C07a (DEFECT): the forced settlement with the stale validator object destroys the rewards just distributed -/
+theorem forced_settle_counterexample :
+    (endBlock {} w07a 5 []).2 = .ok ∧ total (endBlock {} w07a 5 []).1 = total w07a - 9000 ∧ (endBlock {} w07a 5 []).1.lost = 9000 := by decide
+
+/-- F-C07d (DEFECT): a validator emptied by a withdrawal is removed together with its undistributed residue -/
+theorem removed_validator_counterexample :
+    (endBlock {} w07d 5 [(0, 6)]).2 = .ok ∧ total (endBlock {} w07d 5 [(0, 6)]).1 = total w07d - 50 ∧ (endBlock {} w07d 5 [(0, 6)]).1.lostDel = 50 := by decide
+
+/-- hence the full statement is false of the code that exists -/
+theorem step_conserves_counterexample : ¬ step_conserves_statement := by
+  intro h
+  have h1 := h {} w07a (.endBlock 5 []) ⟨by decide, by decide, by decide⟩ (by decide)
+  revert h1
+  decide
+
+/-- The intended full chain theorem (not proved: period-end steps need `penalize`, `distribute` without forced settlement,
+`processQueue`, `takeEffect` and `removeInvalid` without residue — proved so far: `settle_conserves`; the others are
+covered by the block-by-block correspondence and the conservation oracle on the real dumps). -/
+def chain_conserves_statement : Prop :=
+  ∀ (p : Params) (ops : List Op) (s : St), Inv s → (∀ o ∈ ops, mintedGasOp o = 0) →
+    (run p s ops).2 = .ok → (∀ pre ∈ prefixes p s ops, pre.lost = 0 ∧ pre.lostDel = 0) → total (run p s ops).1 = total s
+where
+  mintedGasOp : Op → Nat
+    | .tx t => mintedGas t
+    | _ => 0
+  prefixes (p : Params) : St → List Op → List St
+    | s, [] => [s]
+    | s, o :: t => s :: prefixes p (step p s o).1 t
 
 end YouVerif.C07
